@@ -81,6 +81,10 @@ type Case struct {
 	Runs  []Run    `json:"runs"`
 	Conc  *Conc    `json:"conc,omitempty"` // after the runs: concurrent instances on the same database (conc.go)
 	After []Run    `json:"after"`          // sequential runs after the concurrent instances
+	// TickNS: how far the server clock advances per statement (0 = 1.5 s: every statement in a second of its own).
+	// The fake stamps a settings row with the clock truncated to the second for NOW() and with the full clock for
+	// now64(9), and a read returns the value of the row with the greatest stamp, the FIRST inserted among equals.
+	TickNS int64 `json:"tick_ns"`
 }
 
 // ---------------------------------------------------------------- fake connection
@@ -89,24 +93,31 @@ var tableNames = []string{"time_series", "time_series_gin", "samples_v3", "tempo
 	"tempo_traces_attrs_gin", "tempo_traces_kv", "metrics_15s"}
 
 const getTpl = "SELECT argMax(value, inserted_at) as _value FROM %s WHERE fingerprint = $1 \nGROUP BY fingerprint HAVING argMax(name, inserted_at) != ''"
-const putSQL = "INSERT INTO settings (fingerprint, type, name, value, inserted_at)\nVALUES ($1, $2, $3, $4, NOW())"
+var rePut = regexp.MustCompile("^INSERT INTO settings \\(fingerprint, type, name, value, inserted_at\\)\nVALUES \\(\\$1, \\$2, \\$3, \\$4, (NOW\\(\\)|now64\\(9\\))\\)$")
 
 var reTTL = regexp.MustCompile("(?s)^ALTER TABLE (\\S+) (?: ON CLUSTER `[^`]*` )? MODIFY TTL (.*)$")
 var rePol = regexp.MustCompile("(?s)^ALTER TABLE (\\S+) (?: ON CLUSTER `[^`]*` )? MODIFY SETTING storage_policy=\\$1$")
 
 type tst struct{ ttl, policy string }
 
+type srow struct {
+	val   string
+	named bool
+	ts    int64 // inserted_at in ns
+}
+
 type fake struct {
-	settings map[uint32]string // latest value per fingerprint (argMax(value, inserted_at))
-	named    map[uint32]bool   // latest name non-empty (always true for rows written by putSetting)
-	tables   map[string]*tst
+	rows   map[uint32][]srow // the settings table: every row ever inserted, per fingerprint, in insertion order
+	clock  int64             // server clock, ns
+	tick   int64             // advance per statement
+	tables map[string]*tst
 	log      []Call
 	fault    *Fault
 	n        int
 }
 
 func newFake() *fake {
-	f := &fake{settings: map[uint32]string{}, named: map[uint32]bool{}, tables: map[string]*tst{}}
+	f := &fake{rows: map[uint32][]srow{}, tables: map[string]*tst{}, clock: 1790000000 * 1e9, tick: 1500 * 1e6}
 	for _, t := range tableNames {
 		f.tables[t] = &tst{ttl: "<initial>", policy: "<initial>"}
 	}
@@ -115,12 +126,10 @@ func newFake() *fake {
 
 func (f *fake) clone() *fake {
 	g := newFake()
-	for k, v := range f.settings {
-		g.settings[k] = v
+	for k, v := range f.rows {
+		g.rows[k] = append([]srow{}, v...)
 	}
-	for k, v := range f.named {
-		g.named[k] = v
-	}
+	g.clock, g.tick = f.clock, f.tick
 	for k, v := range f.tables {
 		g.tables[k] = &tst{v.ttl, v.policy}
 	}
@@ -157,6 +166,7 @@ func toArgs(args []any) []Arg {
 func (f *fake) begin(q bool, sql string, args []any) (fail bool, effect bool) {
 	idx := f.n
 	f.n++
+	f.clock += f.tick
 	fail = f.fault != nil && f.fault.At == idx
 	effect = !fail || f.fault.Eff
 	f.log = append(f.log, Call{Q: q, SQL: sql, Args: toArgs(args), OK: !fail})
@@ -177,13 +187,16 @@ func (f *fake) Exec(ctx context.Context, query string, args ...any) error {
 }
 
 func (f *fake) apply(query string, args []any) {
-	if query == putSQL && len(args) == 4 {
+	if m := rePut.FindStringSubmatch(query); m != nil && len(args) == 4 {
 		fp, ok1 := args[0].(uint32)
 		name, ok2 := args[2].(string)
 		val, ok3 := args[3].(string)
 		if ok1 && ok2 && ok3 {
-			f.settings[fp] = val
-			f.named[fp] = name != ""
+			ts := f.clock
+			if m[1] == "NOW()" { // DateTime: whole seconds
+				ts -= ts % 1e9
+			}
+			f.rows[fp] = append(f.rows[fp], srow{val, name != "", ts})
 		}
 		return
 	}
@@ -234,12 +247,28 @@ func (f *fake) Query(ctx context.Context, query string, args ...any) (driver.Row
 	}
 	if (query == fmt.Sprintf(getTpl, "settings") || query == fmt.Sprintf(getTpl, "settings_dist")) && len(args) == 1 {
 		if fp, ok := args[0].(uint32); ok {
-			if v, ok := f.settings[fp]; ok && f.named[fp] {
-				return &rows{vals: []string{v}}, nil
+			if r, ok := f.read(fp); ok && r.named {
+				return &rows{vals: []string{r.val}}, nil
 			}
 		}
 	}
 	return &rows{}, nil
+}
+
+// read: argMax(value, inserted_at) / argMax(name, inserted_at): the row with the greatest stamp, the first inserted
+// among rows with equal stamps.
+func (f *fake) read(fp uint32) (srow, bool) {
+	rs := f.rows[fp]
+	if len(rs) == 0 {
+		return srow{}, false
+	}
+	best := rs[0]
+	for _, r := range rs[1:] {
+		if r.ts > best.ts {
+			best = r
+		}
+	}
+	return best, true
 }
 
 func (f *fake) Contributors() []string                            { return nil }
@@ -264,15 +293,16 @@ func (f *fake) state() State {
 		st.Tables = append(st.Tables, TState{Name: t, TTL: f.tables[t].ttl, Policy: f.tables[t].policy})
 	}
 	keys := []int64{}
-	for k := range f.settings {
-		if f.named[k] {
+	for k := range f.rows {
+		if r, ok := f.read(k); ok && r.named {
 			keys = append(keys, int64(k))
 		}
 	}
 	sort.Slice(keys, func(i, j int) bool { return keys[i] < keys[j] })
 	st.Settings = []SRow{}
 	for _, k := range keys {
-		st.Settings = append(st.Settings, SRow{FP: k, Value: f.settings[uint32(k)]})
+		r, _ := f.read(uint32(k))
+		st.Settings = append(st.Settings, SRow{FP: k, Value: r.val})
 	}
 	return st
 }
@@ -303,8 +333,10 @@ func rotateOnce(f *fake, cfg *Cfg, fault *Fault) (log []Call, failed bool, pnc s
 func runCase(c *Case) {
 	f := newFake()
 	for _, r := range c.Init {
-		f.settings[uint32(r.FP)] = r.Value
-		f.named[uint32(r.FP)] = true
+		f.rows[uint32(r.FP)] = append(f.rows[uint32(r.FP)], srow{r.Value, true, f.clock - 3600*1e9})
+	}
+	if c.TickNS > 0 {
+		f.tick = c.TickNS
 	}
 	for _, t := range c.InitT {
 		if x, ok := f.tables[t.Name]; ok {
@@ -604,6 +636,15 @@ func djb(s string) uint32 {
 	return uint32(h)
 }
 
+// genTick: the server clock per statement: a second and a half (every statement in its own second), or 1 us .. 1 s
+// (several statements, or several runs, within one second).
+func genTick(r *rand.Rand) int64 {
+	if r.Intn(5) < 2 {
+		return 0
+	}
+	return []int64{1000, 1000000, 50000000, 400000000, 1000000000}[r.Intn(5)]
+}
+
 func main() {
 	exh := flag.Int("exhaustive", 0, "additionally: this many configuration pairs with a fault at EVERY call index")
 	f := hx.ParseFlags()
@@ -646,6 +687,7 @@ func main() {
 			id++
 		}
 		for i := range cs {
+			cs[i].TickNS = genTick(r)
 			runCase(&cs[i])
 			runs += len(cs[i].Runs)
 			out.Put(cs[i])
@@ -654,6 +696,7 @@ func main() {
 	for k := 0; k < *exh; k++ {
 		cs := genExhaustive(r, &id, k%3 == 2, 0)
 		for i := range cs {
+			cs[i].TickNS = genTick(r)
 			runCase(&cs[i])
 			out.Put(cs[i])
 		}
